@@ -164,6 +164,17 @@ Scenario generate(const std::string& prop, uint64_t seed, const std::string& tie
     }
 
     if (const char* f = getenv("TBFSIM_FORCE_EXECUTOR")) sc.executor = f;
+    // the shipped floating-point kernels (C03 "to rounding", C15): OpenMP and sequential executors, Morton ordering, cubic box
+    bool numeric = false;
+    if ((prop == "C03" || prop == "C15") && r.chance(0.2)) {
+        const bool rot = r.chance(0.6);
+        sc.kernel = rot ? "rot" : "unif";
+        static const char* exr[] = {"omp", "omp", "omptsm", "seq"};
+        static const char* exu[] = {"omp", "omp", "omp", "seq"};
+        sc.executor = rot ? exr[r.below(prop == "C03" ? 3 : 4)] : exu[r.below(prop == "C03" ? 3 : 4)];
+        numeric = true;
+    }
+    if (const char* f = getenv("TBFSIM_FORCE_KERNEL")) { sc.kernel = f; numeric = (sc.kernel == "rot" || sc.kernel == "unif"); if (sc.kernel == "unif" && sc.isTsm()) sc.executor = "omp"; }
     // ordering
     {
         int pm = 100, pp = 0, ph = 0;
@@ -176,7 +187,7 @@ Scenario generate(const std::string& prop, uint64_t seed, const std::string& tie
         sc.ordering = x < pm ? "morton" : (x < pm + pp ? "periodic" : "hilbert");
         (void)ph;
         if (const char* f = getenv("TBFSIM_FORCE_ORDERING")) sc.ordering = f;
-        if (sc.executor.rfind("specx", 0) == 0 || sc.executor.rfind("starpu", 0) == 0) sc.ordering = "morton";
+        if (sc.executor.rfind("specx", 0) == 0 || sc.executor.rfind("starpu", 0) == 0 || numeric) sc.ordering = "morton";
     }
 
     sc.height = int(pickWeighted(r, {{1, 3}, {2, 7}, {3, 25}, {4, 32}, {5, 25}, {6, 8}}));
@@ -187,10 +198,12 @@ Scenario generate(const std::string& prop, uint64_t seed, const std::string& tie
         sc.width[size_t(d)] = r.chance(0.7) ? w0 : w0 * (0.25 + 1.5 * r.unit());
         sc.centre[size_t(d)] = r.chance(0.3) ? 0.5 * sc.width[size_t(d)] : (r.unit() * 2 - 1) * 3.0 * w0;
     }
+    if (numeric) { sc.width[1] = sc.width[0]; sc.width[2] = sc.width[0]; if (sc.height > 5) sc.height = 5; }
     // particles
     long maxN = sc.height >= 6 ? 120 : (sc.height == 5 ? 220 : 400);
     if (prop == "C12") { maxN = 120; if (sc.height > 5) sc.height = 5; }
     if (prop == "C13") maxN = 200;
+    if (numeric) maxN = 150;
     const long n = 1 + long(std::pow(r.unit(), 1.7) * double(maxN - 1));
     const double lo[3] = {0, 0, 0}, hi[3] = {1, 1, 1};
     const int kind = int(r.below(8));
@@ -217,6 +230,7 @@ Scenario generate(const std::string& prop, uint64_t seed, const std::string& tie
     sc.oneGroupPerParent = r.chance(0.35);
     sc.upper = r.chance(0.7) ? (sc.isPeriodic() ? 1 : 2) : long(r.below(uint64_t(sc.height + 1)));
     if (prop == "C12") sc.upper = long(r.below(uint64_t(sc.height + 1)));
+    if (numeric) sc.upper = 2;   // the shipped floating-point kernels hold operators for the default working levels only
     sc.threadsCtor = 1 + int(r.below(16));
     sc.threadsExec = sc.threadsCtor;
     sc.ctorWithKernel = r.chance(0.4);
